@@ -212,6 +212,34 @@ def _run_print_buffer(pb, out, order, drains, end, blank):
     return None
 
 
+def run_print_retarget(order, switch_at):
+    """The documented public variables fileOut / end / printFlush are changed between two arrivals: what is printed from
+    then on goes to the new stream with the new end."""
+    from windpyutils.buffers import PrintBuffer
+    out1, out2 = io.StringIO(), io.StringIO()
+    pb = PrintBuffer(out1, end="|")
+    want = {1: "", 2: ""}
+    cur = 1
+    arrived = set()
+    nxt = 0
+    for pos, serial in enumerate(order):
+        if pos == switch_at:
+            pb.fileOut = out2
+            pb.end = "#"
+            pb.printFlush = True
+            cur = 2
+        pb.print(serial, f"<{serial}>")
+        arrived.add(serial)
+        while nxt in arrived:
+            want[cur] += f"<{nxt}>" + ("|" if cur == 1 else "#")
+            nxt += 1
+    got = {1: out1.getvalue(), 2: out2.getvalue()}
+    if got != want:
+        return "print-target", (f"order {_o(order)}, fileOut/end re-assigned before arrival #{switch_at}: first stream {got[1]!r}, second "
+                                f"stream {got[2]!r}; expected {want[1]!r} and {want[2]!r}")
+    return None
+
+
 def run_print_flush_gap(order, flush_at):
     """PrintBuffer with an intermediate flush() while a gap exists: flush prints what is held (ascending) and moves
     waiting_for past it (documented); items that arrive later are stored ('stores that value for later') and must come
@@ -398,6 +426,11 @@ def run_shard(spec):
                 res.seen(("b", tuple(order) if len(order) <= 12 else common.h64(order), tuple(sorted(drains))[:12]))
         if 2 <= len(order) <= 6:
             for fa in range(1, len(order)):
+                bad = run_print_retarget(order, fa)
+                res.evaluations += 1
+                res.count("print_buffer_runs_with_reassigned_output")
+                if bad:
+                    report(bad, {"what": "print-retarget", "order": order, "switch_at": fa})
                 with instr.budget(5_000_000):
                     bad = run_print_flush_gap(order, fa)
                 res.evaluations += 1
@@ -440,6 +473,8 @@ def replay(doc):
         bad = run_buffer(c["order"], set(c["drains"]), c["chain"])
     elif c["what"] == "print-gap":
         bad = run_print_flush_gap(c["order"], c["flush_at"])
+    elif c["what"] == "print-retarget":
+        bad = run_print_retarget(c["order"], c["switch_at"])
     elif c["what"] == "buffer-falsy":
         bad = run_buffer(c["order"], set(c["drains"]), False, falsy=True)
     elif c["what"] in ("print", "print-blank"):
